@@ -162,6 +162,13 @@ function plan (seed, run, tier) {
       if (v2 >= 0) ops.push({ op: 'Keep', f: fi, v2, site: (run + fi + 1) % 6 })
     })
   }
+  // node's own source-map support switched on (and off again) at a point of the history (`--enable-source-maps`,
+  // `process.setSourceMapsEnabled`): a process-wide runtime setting the package must not depend on. No draw: the
+  // operation is inserted into a quarter of the histories at a position derived from the run number
+  if (run % 4 === 2) {
+    ops.splice((run * 7) % (ops.length + 1), 0, { op: 'SrcMaps', on: true })
+    if (run % 8 === 6) ops.splice(Math.min(ops.length, ((run * 7) % (ops.length + 1)) + 1 + (run % 5)), 0, { op: 'SrcMaps', on: false })
+  }
   // the rewriter's logger may be on for the whole run (process-wide level on the Rust side)
   const logLevel = rng.pick(['off', 'off', 'off', 'debug', 'trace'])
   // two instances of the package in one process (a module reload, a duplicate copy): the second wraps the
@@ -211,6 +218,7 @@ async function execute (plan, table) {
   const rep = { events: 0, logDigest: 0, violations: [], notes: [], stats: {}, shapes: [], cells: [] }
   const st = (k, n) => { rep.stats[k] = (rep.stats[k] || 0) + (n === undefined ? 1 : n) }
   const viol = (invariant, key, detail) => { if (!rep.violations.find(v => v.key === key)) rep.violations.push({ invariant, key, detail }) }
+  if (typeof process.setSourceMapsEnabled === 'function' && process.sourceMapsEnabled) process.setSourceMapsEnabled(false)
   const simfs = new SimFs()
   const adapter = makeAdapter(table, { fsFor: (file, code) => fsFor(plan, file, code), logLevel: plan.logLevel && plan.logLevel !== 'off' ? plan.logLevel : null })
   const { pkg } = loadPackage(adapter, simfs.module)
@@ -415,6 +423,7 @@ async function execute (plan, table) {
   for (const op of plan.ops) {
     rep.events++
     if (op.op === 'Tick') { await new Promise((resolve) => setImmediate(resolve)); st('fault:event-loop-turn'); hist.push(['Tick', 0, '-']); seq++; continue }
+    if (op.op === 'SrcMaps') { if (typeof process.setSourceMapsEnabled === 'function') process.setSourceMapsEnabled(!!op.on); st(op.on ? 'fault:node-source-maps-enabled' : 'fault:node-source-maps-disabled'); hist.push(['SrcMaps', 0, op.on ? 'on' : 'off']); log.push(`#${seq} SrcMaps ${op.on ? 'on' : 'off'}`); seq++; continue }
     try {
       if (op.op === 'Rewrite' || op.op === 'NonCacheRewrite') {
         const f = plan.files[op.f]; const ver = f && f.versions[op.v]
@@ -760,6 +769,7 @@ async function execute (plan, table) {
   // restore the process-wide handler
   if (origPST) Object.defineProperty(Error, 'prepareStackTrace', origPST); else delete Error.prepareStackTrace
   Error.stackTraceLimit = origLimit
+  if (typeof process.setSourceMapsEnabled === 'function' && process.sourceMapsEnabled) process.setSourceMapsEnabled(false)
   let h = 0
   for (const x of hist) h = mix(h, fnv32(x.join('|')))
   if (hist.length > 1) rep.shapes.push(h)
